@@ -6,6 +6,8 @@ NOTE = ("Trusted base: the Go toolchain, the VerifDump/verifPoint hooks (read-on
         "and the reference model written in /verif/harness/mon from the property statement. Verdict covers only the executions produced.")
 
 P = {
+ "C02": dict(tech="runtime monitor: differential against an independent reference renderer written from the statement, over exhaustive flag products and random trees",
+             text="Exploration: 10,240 exhaustive two-level flag/kind products plus 30k / 3M random trees with per-node presentation options, Unicode/blank-run/empty/number leaves and valid/invalid Conditions; String() and fmt %s compared byte-for-byte with the reference rendering.", ref="2 C02"),
  "C03": dict(tech="runtime monitor: list model with capacity, checked after every op of exhaustive short and random sawtooth histories; raw slice length read through VerifDump",
              text="Exploration: all histories of length <=3 / <=4 over 13 growth/shrink symbols for k in 1..3 plus 20k / 1M random sawtooth histories (k in 1..6, and no/zero/negative capacity argument); "
                   "Len<=k, Cap/Avail/IsFull arithmetic, raw length and kept-earliest content compared with the model after every op.", ref="2 C03"),
@@ -18,6 +20,8 @@ P = {
  "C15": dict(tech="runtime monitor: exhaustive product of source/destination shapes with recursive VerifDump before/after diff",
              text="Exploration, exhaustive over the stated finite product (29k cases: lengths 0..6 x 0..6, capacity none/1..8, LIFO/FIFO, nil elements, 11 destination forms); "
                   "success implies dst0++src, capacity shortage and inert destinations imply false and an unchanged destination, the source never changes.", ref="2 C15"),
+ "C18": dict(tech="runtime monitor: bit-set/settings model compared with the raw option bits (VerifDump), getters and reference rendering after every call; exhaustive short sequences",
+             text="Exploration: all {set,clear,toggle} x option sequences of length <=3 / <=4 from several start states (Stacks: 8 options, Conditions: 4 setters) plus 10k / 500k random 30-call sequences mixing every string-valued setting, log levels, auxiliary map and the FIFO latch.", ref="2 C18"),
  "C19": dict(tech="runtime monitor: exhaustive nil/non-nil patterns against the filter-non-nil oracle, result-shape classifier with per-pattern pinned known outcomes",
              text="Exploration: all patterns of length <=10 / <=12 x 3 scan limits x 4 index-option sets, random long patterns and random nested trees; every wrong result is classified by shape. "
                   "The truncation defect (finding defrag:truncation) is recorded, everything else is a violation.", ref="2 C19"),
